@@ -1877,6 +1877,14 @@ class Engine:
                 for av in bound.values():
                     if isinstance(av, Obj) and av.fields is not None and av is not nsd["self"] and not self._owns_state(av.cls):
                         mutstate.publish(self, ctx, av)
+        for pname, pval in list(nsd.items()):
+            if pname != "self" and isinstance(pval, Obj) and pval.fields is not None:
+                from . import mutstate
+
+                if self._owns_state(pval.cls):
+                    ns.__dict__["old_" + pname] = mutstate.snapshot(pval)  # pre-state of a materialised (mutable) argument
+                elif getattr(contract.impl, "publishes_args", False):
+                    mutstate.publish(self, ctx, pval)  # a fresh immutable object handed to a constructor that keeps it
         callee = short(contract.qualname)
         for label, c in self.run_spec(ctx, lambda: contract.clauses("pre", ns)):
             ctx.oblige("%s/pre#%s#%s" % (short(ctx.func), callee, label), lift_bool(c), kind="pre")
